@@ -70,6 +70,7 @@ CAND = [
 KIND = {n: k for n, k, _ in CAND}
 PARENT = {n: p for n, _, p in CAND}
 NOTDIR = 'plainfile'            # a regular file directly under the root, always present
+THROUGH = NOTDIR + '/extra'     # a path that does not exist and runs through that regular file
 MISSING = 'missing'             # never present
 
 FULL_BITS = ['res/a.txt', 'res/a.png', 'res/noext', 'res/sub', 'res/sub/a.txt', 'res/sub/deep',
@@ -103,11 +104,26 @@ class Rec(Handle):
         return '<Rec rule%d call%d %s>' % (self.rule, self.call, self.path)
 
 
+class RecEmpty(Rec):
+    """A handle that is falsy: reports length 0 (e.g. a lazily loaded collection)."""
+
+    def __len__(self):
+        return 0
+
+
+class RecFalse(Rec):
+    """A handle that is falsy through __bool__."""
+
+    def __bool__(self):
+        return False
+
+
+HANDLE_FLAVOURS = [('ordinary', Rec), ('len-0', RecEmpty), ('bool-false', RecFalse)]
 FACTORY_KINDS = ['function', 'class', 'partial', 'callable-object']
 
 
 def _record(rule_index, state, path, *args, **kwargs):
-    return Rec(rule_index, state['call'], path, args, kwargs)
+    return state['cls'](rule_index, state['call'], path, args, kwargs)
 
 
 class Maker:
@@ -128,7 +144,7 @@ def make_factory(rule_index, state, kind='function'):
             return _record(rule_index, state, path, *args, **kwargs)
         return factory
     if kind == 'class':
-        class RecOfRule(Rec):
+        class RecOfRule(state['cls']):
             def __init__(self, path, *args, **kwargs):
                 Rec.__init__(self, rule_index, state['call'], path, args, kwargs)
         return RecOfRule
@@ -357,11 +373,12 @@ def oracle(sp, rmap, root, tree, rules, call, nest, trim, prev, when):
 
 # --------------------------------------------------------------------------------------------- harness
 def h_populate(sp, bits=(), present=('res',), rule_dirs=('res',), exts=((), ('.txt',)), n_rules=(1,),
-               opts='call', extras=1, styles=False, second=None, mids=(), factories=1):
+               opts='call', extras=1, styles=False, second=None, mids=(), factories=1, flavours=1):
     # ---- 1. all decisions, before any file-system work
     tree = draw_tree(sp, set(bits), set(present))
     nr = n_rules[sp.choose(len(n_rules), 'n-rules')]
     rules = []
+    flavour, handle_cls = HANDLE_FLAVOURS[sp.choose(flavours, 'handle-flavour')]
     kind0 = sp.choose(factories, 'factory-kind')       # rule i uses kind (kind0 + i) mod 4
     for i in range(nr):
         d = rule_dirs[sp.choose(len(rule_dirs), 'rule%d.dir' % i)]
@@ -394,7 +411,8 @@ def h_populate(sp, bits=(), present=('res',), rule_dirs=('res',), exts=((), ('.t
                     with open(os.path.join(root, name), 'w') as f:
                         f.write(name)
         sp.note('tree: %s' % ' '.join(sorted(n + ('/' if KIND[n] == 'd' else '') for n in tree)))
-        state = {'call': 0}
+        state = {'call': 0, 'cls': handle_cls}
+        sp.note('handles made by the factories are %s objects' % flavour)
         if root_at_call:
             pop = DirectoryResourcePopulator(os.path.join(root, 'nowhere'), **ck)
         else:
@@ -456,6 +474,16 @@ def h_populate(sp, bits=(), present=('res',), rule_dirs=('res',), exts=((), ('.t
             # vacuity tags
             if any(r['dir'] == MISSING or (r['dir'] in KIND and r['dir'] not in tree) for r in rules):
                 sp.cover('missing-skipped')
+            for i, r in enumerate(rules):
+                if r['dir'] == THROUGH:
+                    sp.cover('missing-below-a-file-skipped')
+                    if any(ri > i for ri, _ in inst):
+                        sp.cover('missing-below-a-file-then-rule-applied')
+            if flavour != 'ordinary':
+                clash = any(len(v) > 1 for v in _by_key(inst, trim_i).values()) or (ci and inst)
+                if clash:
+                    sp.cover('falsy-handle-clash-%s' % ('nest' if nest_i else 'replace'))
+                    sp.cover('falsy-handle:' + flavour)
             for ri in {ri for ri, _ in inst}:
                 sp.cover('built-by:' + rules[ri]['kind'])
             if trim_i:
@@ -528,6 +556,10 @@ FACTORY_TAGS = (['built-by:' + k for k in FACTORY_KINDS] + ['not-a-directory:fac
 DEFAULT_TAGS = ['ctor-default-nest', 'ctor-default-nest-clash', 'ctor-default-trim']
 PASSING_TAGS = DEFAULT_TAGS + ['clash-nest', 'clash-replace', 'trim', 'option-falls-back', 'root-per-call',
                                'rule-object-appended']
+THROUGH_TAGS = ['missing-below-a-file-skipped', 'missing-below-a-file-then-rule-applied', 'not-a-directory',
+                'clash-nest', 'clash-replace', 'file-under-two-rules']
+FALSY_TAGS = ['falsy-handle-clash-nest', 'falsy-handle-clash-replace', 'falsy-handle:len-0',
+              'falsy-handle:bool-false', 'second-population', 'file-under-two-rules']
 FALLBACK_TAGS = ['fallback-after-override:%s:built-%s' % (o, b)
                  for o in ('nest_on_conflict', 'trim_extensions') for b in (True, False)]
 EVERY_BIT = ['res'] + FULL_BITS + ['other', 'other/x']
@@ -542,6 +574,14 @@ TIERS = {
         # every kind of factory (function, class, functools.partial, object with __call__) x every rule list
         ('rules', dict(present=('res', 'res/a.txt', 'res/a.png', 'res2', 'res2/c.txt'), rule_dirs=ALL_DIRS,
                        n_rules=(1, 2), factories=4), dict(required=FACTORY_TAGS)),
+        # a rule path that does not exist because a leading component is a regular file: skipped like any
+        # missing directory, the other rule still applies
+        ('rules', dict(bits=('res/a.png', 'res/sub/a.txt'), present=('res', 'res/a.txt', 'res/sub'),
+                       rule_dirs=(THROUGH, 'res', NOTDIR), n_rules=(1, 2)), dict(required=THROUGH_TAGS)),
+        # factories whose handles are falsy (__len__ == 0 / __bool__ False): clashes within one population
+        # (two files on one key, two rules on one file) and across two populations
+        ('twice', dict(bits=('res/noext',), present=('res', 'res/a.txt', 'res/a.png'), exts=((),),
+                       n_rules=(1, 2), second='call', flavours=3), dict(required=FALSY_TAGS)),
         # names: several dots, a directory with an extension, a rule on a nested directory
         ('names', dict(bits=('res/a.tar.gz', 'res/d.txt', 'res/d.txt/e.txt', 'res/a.png', 'res/sub/a.txt'),
                        present=('res', 'res/a.txt', 'res/sub'), rule_dirs=('res', 'res/sub'))),
@@ -564,6 +604,12 @@ TIERS = {
         ('rules', dict(bits=('res/a.png', 'res/sub/a.txt', 'res2/c.txt'),
                        present=('res', 'res/a.txt', 'res/sub', 'res2', 'other', 'other/x'),
                        rule_dirs=ALL_DIRS, n_rules=(1, 2), factories=4), dict(required=FACTORY_TAGS)),
+        ('rules', dict(bits=('res/a.png', 'res/sub/a.txt', 'res2/c.txt'),
+                       present=('res', 'res/a.txt', 'res/sub', 'res2', 'other', 'other/x'),
+                       rule_dirs=ALL_DIRS + (THROUGH,), n_rules=(1, 2)), dict(required=THROUGH_TAGS)),
+        ('twice', dict(bits=('res/a.png', 'res/noext', 'res/sub/a.txt'), present=('res', 'res/a.txt', 'res/sub'),
+                       n_rules=(1, 2), second='call', mids=('res/z.txt',), flavours=3, factories=2),
+         dict(required=FALSY_TAGS)),
         ('names', dict(bits=('res/a.txt', 'res/a.png', 'res/a.tar.gz', 'res/noext', 'res/d.txt',
                              'res/d.txt/e.txt', 'res/sub', 'res/sub/a.txt', 'res/sub/a.png'),
                        present=('res',), rule_dirs=('res', 'res/sub'), n_rules=(1, 2))),
@@ -611,6 +657,8 @@ BOUNDS = {
              'or explicit None), root at construction or per call, 4 extra-argument shapes, add_rule or rule object; '
              'factories: all lists of 1-2 rules x 2 filters x nest x trim x 4 factory kinds (function, class, '
              'functools.partial, object with __call__) on one tree; '
+             'through-file: rules over {plainfile/extra, res, plainfile} (1-2 rules) on 4 trees; falsy handles: '
+             'ordinary / __len__==0 / __bool__ False handles x 1-2 rules on res x two populations; '
              'twice: 8 trees, second population with fresh options, optionally after adding res/z.txt; same populator: '
              'options at construction x explicit override in call 1 x every per-call form (omitted/None/True/False) '
              'in call 2',
@@ -618,7 +666,8 @@ BOUNDS = {
                 'res/sub/a.txt, res/sub/deep/, res/sub/deep/b.txt, res2/, res2/c.txt, other/, other/x) x every '
                 'single rule over {res,res2,missing,regular file,res/sub} x 2 filters x nest x trim; rules: 171 '
                 'trees x every ordered pair of such rules x nest x trim; factories: 8 trees x all lists of 1-2 rules over 4 directories x 2 filters x nest x trim x 4 factory '
-                'kinds; names: 240 trees with a.tar.gz, d.txt/'
+                'kinds; through-file: the quick rules plan with plainfile/extra as a sixth rule directory; falsy handles: 8 '
+                'trees x 3 handle flavours x 2 factory kinds x 1-2 rules x two populations; names: 240 trees with a.tar.gz, d.txt/'
                 'e.txt, sub/a.png x 1-2 rules over {res,res/sub}; passing as quick plus a second call with every '
                 'per-call option form (None/True/False each, None omitted or explicit); twice: 57 trees x 1-2 rules over {res,res/sub} x options x '
                 '{nothing, +res/z.txt, +res/sub/a.png, +res/a.png} x options of the second call',
@@ -642,6 +691,10 @@ ASSUMPTIONS = [
     'the factory receives a path that resolves (realpath) to the file; its textual form is free',
     'the rule\'s factory is any callable: function, class, functools.partial and an object with __call__ (no '
     '__name__) are tried; with two rules the second uses the next kind in that list',
+    'a rule path that cannot exist because one of its leading components is a regular file '
+    '(plainfile/extra) is a MISSING path (nothing exists there): skipped, later rules still applied',
+    'handles are arbitrary objects of the factory: their truth value must not matter (falsy handles with '
+    '__len__ == 0 or __bool__ False are tried)',
     'handle.parent / handle.key back-links are C11, not checked here',
     'an option omitted at construction has the documented default (nest_on_conflict enabled, trim_extensions '
     'False); constructing with none, one or both options is explored',
